@@ -2,7 +2,7 @@
 import ast
 
 from ..model import dotted, src, calls_in, kw, AnalysisError
-from ..common import fpaths, peel, actual, fxp_names_in, same_expr
+from ..common import fpaths, peel, actual, fxp_names_in, same_expr, effective_owners, closure_funcs
 from .. import anchors as A
 
 CARRIERS = ["int", "float", "complex", "np.ndarray", "np.generic", "list", "tuple", "str", "Fxp"]
@@ -84,12 +84,18 @@ def write_funnel(ck, rule):
             ck.check(good, rule, f, "the constructor stores its val argument through set_val", "constructor set_val call does not pass val", f.node)
     # no route writes the buffer itself
     for name in STORING_ROUTES + ["like"]:
-        f = prog.method("Fxp", name)
-        for n, kind, base, t in _val_writes(f):
+        f0 = prog.method("Fxp", name)
+        for f in closure_funcs(prog, f0):
+          if effective_owners(prog, f) == {fun.qualname}:
+            continue
+          for n, kind, base, t in _val_writes(f):
             if name == "__init__" and isinstance(n, ast.Assign) and isinstance(n.value, ast.Constant) and n.value.value is None:
                 continue
             ck.bad(rule, f, "storing routes never write the value buffer themselves", "%s writes %s" % (name, src(t)), n,
                    "a direct store bypasses scale/round/overflow and the flags")
+    if False:
+        if False:
+            pass
     ck.ok(rule, fun, "%d call sites of set_val in the package; the %d public storing routes all go through it" % (total_sites, len(STORING_ROUTES)), nontrivial=False)
 
 
@@ -226,8 +232,8 @@ def who_writes_codes(ck, rule):
         for n, kind, base, t in _val_writes(f):
             n_total += 1
             writers.add(f.qualname)
-            if f.qualname == fun.qualname:
-                continue   # decided by the stage-order rule
+            if effective_owners(prog, f) == {fun.qualname}:
+                continue   # set_val or a helper extracted from it: decided by the stage-order rule on the inlined paths
             if isinstance(n, ast.Assign) and isinstance(n.value, ast.Constant) and n.value.value is None and f.name == "__init__":
                 continue
             if kind.startswith("inplace:"):
